@@ -654,7 +654,15 @@ func checkC03(c C03Case, st *stats.Collector) error {
 		if err := checkSelectionKF(st, "C03", label, r1.Items, all, c.Topics, c.S, c.E, !c.Window, pl, order); err != nil {
 			return err
 		}
-		r2 := readOrdered(file, opts...)
+		// (the options are built anew: the caller's topic slice behind the first set has been overwritten)
+		opts2 := []mcap.ReadOpt{mcap.InOrder(order)}
+		if c.Topics != nil {
+			opts2 = append(opts2, mc.Topics(c.Topics))
+		}
+		if c.Window {
+			opts2 = append(opts2, mcap.AfterNanos(c.S), mcap.BeforeNanos(c.E))
+		}
+		r2 := readOrdered(file, opts2...)
 		if len(r2.Items) != len(r1.Items) {
 			return pk.Failf("repeat", "%s: second read returns %d items, first %d", label, len(r2.Items), len(r1.Items))
 		}
